@@ -281,6 +281,17 @@ Theorem c10_round_history : forall c, rcfg_wf c -> forall ops st, rinv c st ->
 Proof. exact rhist_holds_model. Qed.
 Print Assumptions c10_round_history.
 
+(* the pod set may change between rounds (a pod with a negative usage does not exist in that round):
+   a round is a function of the files, the quota status bit and the pods of THAT round only, so a
+   cpu listed by an LSE pod that is gone is eligible again (seeded C10-m9 kept the cpu -> pool map
+   across rounds) *)
+Theorem c10_round_pods_of_the_round : forall c st mode fail nodeu pu hu,
+  rstep c st (RRound mode fail nodeu pu hu)
+  = rround (round_cfg c pu) st mode fail nodeu (present_uses (rc_pods c) pu) hu
+  /\ rc_pods (round_cfg c pu) = present_pods (rc_pods c) pu.
+Proof. exact (fun c st mode fail nodeu pu hu => conj eq_refl eq_refl). Qed.
+Print Assumptions c10_round_pods_of_the_round.
+
 Theorem c10_round_step : forall c st op, rcfg_wf c -> rinv c st ->
   rinv c (rstep c st op) /\ rstep_ok c (obs_of st) op (obs_of (rstep c st op)).
 Proof. exact rstep_spec. Qed.
@@ -296,7 +307,7 @@ Print Assumptions c10_round_history_decided.
    reserved for the node (the cpus the reservation annotation lists) and not system-exclusive *)
 Theorem c10_round_no_protected : forall c st mode nodeu pu hu, rcfg_wf c -> rinv c st ->
   mode <> 2 -> mode <> 1 -> rc_pods c <> [] ->
-  let st' := rstep c st (RRound mode false nodeu pu hu) in
+  let st' := rround c st mode false nodeu pu hu in
   rs_ctr st' = rs_ctr st \/
   forall x, In x (rs_ctr st') ->
     In x (map cpu (rc_procs c)) /\ protected (round_ainput c 0 []) x = false.
@@ -307,7 +318,7 @@ Print Assumptions c10_round_no_protected.
    container-level cpuset grows by at most ceil(nprocs/10) per round (whatever happened before) ... *)
 Theorem c10_round_growth_none : forall c st mode fail nodeu pu hu, rcfg_wf c -> rinv c st ->
   rc_static c = false -> mode <> 1 -> mode <> 2 ->
-  lenZ (rs_ctr (rstep c st (RRound mode fail nodeu pu hu))) <= lenZ (rs_ctr st) + ceil_div (lenZ (rc_procs c)) 10.
+  lenZ (rs_ctr (rround c st mode fail nodeu pu hu)) <= lenZ (rs_ctr st) + ceil_div (lenZ (rc_procs c)) 10.
 Proof. exact round_growth_none. Qed.
 Print Assumptions c10_round_growth_none.
 
@@ -411,6 +422,15 @@ Proof.
   split; [unfold rinv; cbn; repeat split; intros; try reflexivity; discriminate|].
   vm_compute. reflexivity.
 Qed.
+
+(* seeded mutant C10-m9: 4 cpus, an LSE pod owning cpus 2,3 exists in round 1 only; budget 4 cpus:
+   round 1 hands out the two free cpus, round 2 (pod gone) all four *)
+Example c10_nv_pod_gone :
+  let c := mkRC 4000 (Some 4000) anno_none 100 None false [] w_procs
+                [mkRpod Q_LSE false false [2; 3]; mkRpod Q_LS false false []] [] in
+  rhist c (mkRS [0;1] [0;1] [0;1] (-1) false) [RRound 0 false 0 [0; 0] []; RRound 0 false 0 [-1; 0] []; RRound 0 false 0 [-1; 0] []]
+  = [([0;1], [0;1], [0;1], -1); ([0;1;2], [0;1;2], [0;1;2], -1); ([0;1;2;3], [0;1;2;3], [0;1;2;3], -1)].
+Proof. vm_compute. reflexivity. Qed.
 
 (* the history of seeded mutant C10-m3: quota round, recovered, same quota round again *)
 Example c10_nv_history :
